@@ -160,15 +160,16 @@ func (m *UnsubscribeMessage) Encode(dst []byte) (int, error) {
 		return copy(dst, m.dbuf), nil
 	}
 
-	hl := m.header.msglen()
 	ml := m.msglen()
-
-	if len(dst) < hl+ml {
-		return 0, fmt.Errorf("unsubscribe/Encode: Insufficient buffer size. Expecting %d, got %d", hl+ml, len(dst))
-	}
 
 	if err := m.SetRemainingLength(int32(ml)); err != nil {
 		return 0, err
+	}
+
+	hl := m.header.msglen()
+
+	if len(dst) < hl+ml {
+		return 0, fmt.Errorf("unsubscribe/Encode: Insufficient buffer size. Expecting %d, got %d", hl+ml, len(dst))
 	}
 
 	total := 0
